@@ -16,11 +16,28 @@ let run (toks : string list) (cout : string list) : string =
     | _ ->
     match c.op with
     | "iso" ->
-      let st = structure c in
-      let sp = specialise_case c st in
-      let refr = reference_roots c sp st in
       let (r1, rest) = read_values "R" cout in
       let (r2, rest) = read_values "R2" rest in
+      let v1 = verified_roots c r1 in
+      let st = structure c in
+      let sp_refr = (try let sp = specialise_case c st in Some (sp, reference_roots c sp st) with Skip _ -> None) in
+      (match sp_refr with
+       | None ->
+         (* no unverified reference for this case: the verified checker decides alone *)
+         (match v1, rest with
+          | Accept, ["Y"; n; restored] ->
+            if verified_roots c r2 <> Accept then "CHECK fail: second call on the same assignment is not accepted"
+            else if int_of_string n <> List.length r1 then "CHECK fail: different number of roots when y is assigned"
+            else if restored <> "1" then "CHECK fail: the value of y was not restored in the assignment"
+            else "CHECK ok verified"
+          | Reject, _ -> "CHECK fail: rejected by the verified checker (no reference method applies)"
+          | _, _ -> raise (Skip "no reference method applies"))
+       | Some (sp, refr) ->
+      let ref_ok = (check_roots refr r1 = None) in
+      if v1 = Reject && ref_ok then "MODEL-ERROR the verified checker rejects a root list the reference accepts"
+      else if v1 = Accept && not ref_ok then "MODEL-ERROR the verified checker accepts a root list the reference rejects"
+      else
+      let how = (if v1 = Accept && verified_roots c r2 = Accept then "verified" else "reference") in
       (match check_roots refr r1 with
        | Some w -> "CHECK fail: " ^ w ^ " (reference: " ^ String.concat " " (List.map string_of_rnum refr) ^ ")"
        | None ->
@@ -32,8 +49,8 @@ let run (toks : string list) (cout : string list) : string =
               if int_of_string n <> List.length refr then "CHECK fail: different number of roots when y is assigned"
               else if restored <> "1" then "CHECK fail: the value of y was not restored in the assignment"
               else if (sp.ident_zero || sp.degree = 0) && refr <> [] then "MODEL-ERROR degenerate specialisation with roots"
-              else "CHECK ok"
-            | _ -> "CHECK fail: malformed output"))
+              else "CHECK ok " ^ how
+            | _ -> "CHECK fail: malformed output")))
     | "isof" ->
       (* the per-factor lists the library computes are handed to the EXTRACTED assembly (gather, sort, de-duplicate)
          on the ranks of the reference roots; its result must be the list lp_polynomial_roots_isolate returned *)
@@ -57,5 +74,5 @@ let run (toks : string list) (cout : string list) : string =
          if expected <> got then
            "CHECK fail: assembly of the per-factor lists: model [" ^ String.concat " " (List.map string_of_z expected) ^
            "], implementation [" ^ String.concat " " (List.map string_of_z got) ^ "] (ranks among the reference roots)"
-         else "CHECK ok")
+         else "CHECK ok " ^ (if verified_roots c final = Accept then "verified" else "reference"))
     | _ -> "UNKNOWN-OP")
